@@ -524,7 +524,12 @@ type internalRequest struct {
 }
 
 func (i *internalRequest) Execute(_ bool) {
-	panic("not implemented")
+	// Internal requests never execute prepared statements, so this is only reached if the server answers one of them
+	// with an unprepared error for an ID in the prepared cache. Fail the request instead of taking the proxy down.
+	select {
+	case i.err <- errors.New("unexpected unprepared error response for an internal request"):
+	default:
+	}
 }
 
 func (i *internalRequest) Frame() interface{} {
@@ -558,7 +563,8 @@ type prepareRequest struct {
 }
 
 func (r *prepareRequest) Execute(_ bool) {
-	panic("not implemented")
+	// Only reached if the server answers the `PREPARE` itself with an unprepared error; give up on this host.
+	r.origRequest.Execute(true)
 }
 
 func (r *prepareRequest) Frame() interface{} {
